@@ -5,7 +5,7 @@ NOT_APPLICABLE = {
            "threads or multiprocessing symbolically, and a sequential stub would decide one schedule only (DESIGN §4 C13)",
 }
 ENGINES = [
-    {"name": "pysym", "path": "vf/pysym", "serves_properties": ["C17", "C07", "C06", "C09", "C10", "C12", "C04"],
+    {"name": "pysym", "path": "vf/pysym", "serves_properties": ["C17", "C07", "C06", "C09", "C10", "C12", "C04", "C18"],
      "kind_free_text": "bounded path-forking symbolic interpreter over the AST of the real py7zr sources (re-parsed "
                        "from /repo on every run), z3 bit-vectors / integers / ropes; solver verdict per path"},
 ]
@@ -19,6 +19,16 @@ RD_NOTE = ("codec libraries replaced by a decoder contract stub (next r bytes of
            "oracle; archive shapes (entry kinds, folder partition, layout options) are an enumerated bound, all sizes, CRCs, "
            "timestamps, pack sizes symbolic")
 CHECKS = {
+    "C18": dict(engine=B, ref="DESIGN.md §4 C18",
+                technique="bounded symbolic execution of the real _extract/Worker.extract/_extract_single/decompress/reporter/close "
+                          "from the AST with a recording queue, a symbolic non-decreasing clock and symbolic decoder chunking",
+                text="Single-worker event stream only: for every selection, chunking and clock the queue receives 'pre' first and "
+                     "'post' last, one start and later one end event per processed member carrying its name and size, update "
+                     "payloads of a delivered member sum to its size; reporter() dispatches every item kind to the right "
+                     "callback in order, survives empty-queue timeouts, stops at the sentinel; close() posts the sentinel and "
+                     "joins. Interleavings of worker and reporter threads, blocking callbacks and 'none after close()' are NOT "
+                     "decided (no scheduler in this technique).",
+                note=RD_NOTE + "; threading.Thread is a stub; schedules are outside"),
     "C04": dict(engine=B, ref="DESIGN.md §4 C04",
                 technique="bounded symbolic execution of the real open/extract/testzip/test code from the AST against an adversarial "
                           "decoder stub (decoded stream altered from a symbolic offset) with CRC32 as a collision-free abstraction; "
